@@ -86,8 +86,48 @@ bool operator!= (const LA<T, Cfg>& a, const LA<U, Cfg>& b) noexcept
   return ! (a == b);
 }
 
+// The same allocator with construct / destroy members: the container must then route every element
+// construction and destruction through the allocator, which switches the memcpy fast paths off.
+template <typename T, typename Cfg>
+struct LAC : LA<T, Cfg>
+{
+  typedef LA<T, Cfg> base;
+  typedef typename base::size_type size_type;
+  template <typename U> struct rebind { typedef LAC<U, Cfg> other; };
+
+  LAC () noexcept : base () { }
+  explicit LAC (int i) noexcept : base (i) { }
+  LAC (const LAC& o) noexcept : base (o) { }
+  template <typename U> LAC (const LAC<U, Cfg>& o) noexcept : base (o.id) { }
+  LAC& operator= (const LAC& o) noexcept { this->id = o.id; return *this; }
+
+  template <typename U, typename ...Args>
+  void construct (U *p, Args&&... args)
+  {
+    ++construct_calls ();
+    ::new (static_cast<void *> (p)) U (std::forward<Args> (args)...);
+  }
+  template <typename U>
+  void destroy (U *p) noexcept
+  {
+    ++destroy_calls ();
+    p->~U ();
+  }
+  LAC select_on_container_copy_construction () const noexcept { return LAC (this->id + Cfg::soccc_offset); }
+
+  static long& construct_calls () { static long n = 0; return n; }
+  static long& destroy_calls () { static long n = 0; return n; }
+};
+
+template <typename T, typename U, typename Cfg>
+bool operator== (const LAC<T, Cfg>& a, const LAC<U, Cfg>& b) noexcept { return Cfg::iae || a.id == b.id; }
+template <typename T, typename U, typename Cfg>
+bool operator!= (const LAC<T, Cfg>& a, const LAC<U, Cfg>& b) noexcept { return ! (a == b); }
+
 // Uniform access to "allocator instance id" and construction from an id.
 template <typename A> struct AllocTraits;
+
+
 
 template <typename T, typename Cfg>
 struct AllocTraits<LA<T, Cfg> >
@@ -114,6 +154,14 @@ struct AllocTraits<LA<T, Cfg> >
       s += "_max" + itos (static_cast<long> (Cfg::max_size));
     return s;
   }
+};
+
+template <typename T, typename Cfg>
+struct AllocTraits<LAC<T, Cfg> > : AllocTraits<LA<T, Cfg> >
+{
+  static LAC<T, Cfg> make (int id) { return LAC<T, Cfg> (id); }
+  static int id (const LAC<T, Cfg>& a) { return a.id; }
+  static std::string name () { return AllocTraits<LA<T, Cfg> >::name () + "+construct"; }
 };
 
 template <typename T>
